@@ -19,6 +19,7 @@ var limitCols = map[string][][]string{
 	"users":  {{"shard"}, {"shard"}, {"shard"}, {"shard", "name"}, {"nick"}, {"id"}, {"flag"}},
 	"items":  {{"shard"}, {"shard"}, {"shard", "kind"}, {"label"}, {"note"}, {"shard", "id"}, {"data"}, {"score"}},
 	"events": {{"org_id"}, {"org_id"}, {"tag"}, {"id"}, {"seq"}},
+	"tags":   {{"space"}, {"space"}, {"name", "space"}, {"namespace"}, {"a", "b"}, {"ab"}},
 }
 
 // limitValue: mostly the driver-level type (so that writes can comply), sometimes the field's own type,
